@@ -130,3 +130,33 @@ F("D23c", "C18", L + "rsa_single_checks.py", "        any_weak = True\n        t
 F("D23d", "C18", L + "rsa_util.py", "  unique_values = list(set(values))\n  prod_tree, t = ntheory_util.ExtendedProductTree(unique_values)", "  unique_values = list(set(values))\n  first = unique_values[0]\n  prod_tree, t = ntheory_util.ExtendedProductTree(unique_values)",
   "R-C18-EMPTY", "BatchGCD indexes the first element")
 F("D23e", "C18", L + "paranoid.py", "  any_weak = False\n  start_total = time.time()", "  any_weak = False\n  first_key = artifacts[0]\n  start_total = time.time()", "R-C18-EMPTY", "_CheckArtifacts touches artifacts[0]")
+
+# ---------------------------------------------------------------------------------- C03
+N = L + "ntheory_util.py"
+RU = L + "rsa_util.py"
+AG = L + "rsa_aggregate_checks.py"
+F("E01", "C03", N, "    t = [a * d + b * c for a, b, c, d in quadruplewise]", "    t = [a * c + b * d for a, b, c, d in quadruplewise]", "R-C03-TREE", "T step: wrong cross terms")
+F("E02", "C03", N, "    quadruplewise = zip(t[::2], t[1::2], values[::2], values[1::2])", "    quadruplewise = zip(t[::2], t[1::2], values[1::2], values[::2])", "R-C03-TREE", "T step: P_L/P_R swapped")
+F("E03", "C03", N, "    if len(values) % 2 == 1:\n      t.append(last_t)", "    if len(values) % 2 == 0:\n      t.append(last_t)", "R-C03-TREE", "carry on even levels")
+F("E04", "C03", N, "    last_t = t[-1]\n", "    last_t = t[0]\n", "R-C03-TREE", "carry takes first node")
+F("E05", "C03", N, "    t = [a * d + b * c for a, b, c, d in quadruplewise]\n    if len(values) % 2 == 1:\n      t.append(last_t)\n    pairwise = itertools.zip_longest(values[::2], values[1::2], fillvalue=1)",
+  "    t = [a * d + b * c for a, b, c, d in quadruplewise]\n    if len(values) % 2 == 1:\n      t.append(last_t)\n    pairwise = itertools.zip_longest(values[::2], values[1::2], fillvalue=2)", "R-C03-TREE", "fill value 2 in ExtendedProductTree")
+F("E06", "C03", N, "  while len(values) > 1:\n    last_t", "  while len(values) > 2:\n    last_t", "R-C03-TREE", "tree stops one level early")
+F("E07", "C03", N, "  return prod_tree, t[0]", "  return prod_tree, t[-1]", "R-C03-TREE", "returns last instead of root")
+F("E08", "C03", RU, "        remainders[i] = prev[i // 2] % unique_values[i]", "        remainders[i] = prev[(i + 1) // 2] % unique_values[i]", "R-C03-REMAINDER", "child reads wrong parent")
+F("E09", "C03", RU, "        remainders[i] = prev[i // 2] % unique_values[i]", "        remainders[i] = prev[i // 2] % unique_values[i - 1]", "R-C03-REMAINDER", "reduced modulo the neighbour")
+T("E10", "C03", RU, "      if i + 1 == len(unique_values) and i % 2 == 0:\n        remainders[i] = prev[i // 2]\n      else:\n        remainders[i] = prev[i // 2] % unique_values[i]", "      remainders[i] = prev[i // 2] % unique_values[i]", "pass-through removed (always reduce): behaviour-preserving")
+F("E11", "C03", RU, "  gcds_dict = {v: gmpy.gcd(v, r) for v, r in zip(unique_values, remainders)}", "  gcds_dict = {v: gmpy.gcd(v, r) for v, r in zip(unique_values, remainders[1:])}", "R-C03-REMAINDER", "leaf zip shifted")
+F("E12", "C03", RU, "  unique_values = list(set(values))\n", "  unique_values = list(values)\n", "R-C03-DEDUP", "dedup removed: identical moduli accuse each other")
+F("E13", "C03", RU, "  if other_values_prod:\n    t *= other_values_prod\n", "  if other_values_prod:\n    t += other_values_prod\n", "R-C03-OTHER", "extra product added instead of multiplied")
+F("E14", "C03", AG, "      if gcds[i] != 1:", "      if gcds[i] > 2:", "R-C03-VERDICT", "CheckGCD misses gcd 2")
+F("E15", "C03", AG, "      if gcds[i] >= self._gcd_bound:", "      if gcds[i] > self._gcd_bound:", "R-C03-VERDICT", "GCDN1 strict bound")
+F("E16", "C03", AG, "  def __init__(self, gcd_bound: int = 2**128):", "  def __init__(self, gcd_bound: int = 2**64):", "R-C03-VERDICT", "GCDN1 default bound")
+F("E17", "C03", AG, "    vals = [gmpy.mpz(util.Bytes2Int(key.rsa_info.n)) - 1 for key in artifacts]", "    vals = [gmpy.mpz(util.Bytes2Int(key.rsa_info.n)) for key in artifacts]", "R-C03-VERDICT", "GCDN1 on n instead of n-1")
+F("E18", "C03", N, "    values = [a * b for a, b in pairwise]\n    prod_tree.append(values)", "    values = [a * b for a, b in pairwise]\n    prod_tree.insert(0, values)", "R-C03-TREE", "levels stored in reverse order")
+T("E19", "C03", N, "    last_t = t[-1]\n    quadruplewise = zip(t[::2], t[1::2], values[::2], values[1::2])\n    t = [a * d + b * c for a, b, c, d in quadruplewise]",
+  "    last_t = t[-1]\n    t = [tl * pr + tr * pl for tl, tr, pl, pr in zip(t[::2], t[1::2], values[::2], values[1::2])]", "T step inlined with other names")
+F("E20", "C03", N, "    pairwise = itertools.zip_longest(values[::2], values[1::2], fillvalue=1)\n    values = [a * b for a, b in pairwise]\n  return values[0]",
+  "    pairwise = zip(values[::2], values[1::2])\n    values = [a * b for a, b in pairwise]\n  return values[0]", "R-C03-TREE", "FastProduct drops the unpaired node")
+T("E21", "C03", N, "    quadruplewise = zip(t[::2], t[1::2], values[::2], values[1::2])\n    t = [a * d + b * c for a, b, c, d in quadruplewise]",
+  "    quadruplewise = zip(t[1::2], t[::2], values[1::2], values[::2])\n    t = [a * d + b * c for a, b, c, d in quadruplewise]", "both pairs mirrored: same T")
